@@ -17,8 +17,10 @@
     list observed through membership only.  The catalog's table and schema maps are represented by the lists of
     names for which [table_exists] / [schema_exists] answer true (the harness uses normalised, unqualified
     names, for which [Catalog::get_table] is an exact lookup in the current schema).
-    [revoke_cascade] is recursive without a bound in the code; here it takes explicit fuel and [None] stands for
-    the stack overflow that aborts the process (see [step]: [RCrash]).  Model file: definitions only. *)
+    [revoke_cascade] recurses over the delegation graph and marks grantees in a visited set (fix
+    "revoke-cascade-visited-set"; before it the walk was unbounded on cycles under GRANT OPTION FOR and died of a
+    stack overflow).  Here it takes explicit fuel; [None] / [RCrash] would be the overflow and is proved
+    unreachable (PrivLaws.revoke_never_crashes).  Model file: definitions only. *)
 From Coq Require Import List Bool String Arith.
 Import ListNotations.
 Open Scope string_scope.
@@ -174,7 +176,7 @@ Inductive error : Type :=
 Inductive result : Type :=
 | ROk
 | RErr (e : error)
-| RCrash.   (* unbounded recursion in [revoke_cascade]: the process aborts with a stack overflow *)
+| RCrash.   (* recursion budget of [revoke_cascade] exhausted (stack overflow); unreachable since the visited-set fix *)
 
 (** ** [RoleExecutor] / [Catalog::create_role] / [drop_role] *)
 Definition exec_create_role (s : state) (r : string) : state * result :=
@@ -236,39 +238,50 @@ Fixpoint fold_opt {A B : Type} (f : B -> A -> option B) (l : list A) (b : B) : o
   | x :: r => match f b x with None => None | Some b' => fold_opt f r b' end
   end.
 
-(** the body of the [for dependent_grantee in dependent_grants] loop, also the body of the statement's own
-    loops: remove the grants held by [d], then cascade from [d] *)
-Definition kill_then (casc : list grant -> string -> option (list grant))
-           (obj : string) (p : privilege) (gof : bool) (G : list grant) (d : string) : option (list grant) :=
-  casc (remove_grants obj d p gof G) d.
+(** the walk threads the grant table and the [visited] set ([HashSet<String>], observed by membership only) *)
+Definition cstate : Type := (list grant * list string)%type.
+
+(** the body of the [for dependent_grantee in dependent_grants] loop:
+    [if !visited.insert(d) { continue; }  remove_grants(.., d, ..);  revoke_cascade(.., d, .., visited)?] *)
+Definition visit_then (casc : list grant -> list string -> string -> option cstate)
+           (obj : string) (p : privilege) (gof : bool) (st : cstate) (d : string) : option cstate :=
+  if mem d (snd st) then Some st
+  else casc (remove_grants obj d p gof (fst st)) (d :: snd st) d.
 
 (** [RevokeExecutor::revoke_cascade]; the list of dependent grantees is collected BEFORE the loop (it is not
-    refreshed while the loop removes grants) *)
+    refreshed while the loop removes grants).  The recursion is bounded by the visited set; the fuel only
+    serves Coq's termination check ([PrivLaws.cascade_terminates]: [cascade_fuel] always suffices). *)
 Fixpoint revoke_cascade (fuel : nat) (obj : string) (p : privilege) (gof : bool)
-         (G : list grant) (grantor : string) : option (list grant) :=
+         (G : list grant) (visited : list string) (grantor : string) : option cstate :=
   match fuel with
   | O => None
   | S f =>
       let deps := map g_grantee (filter (granted_by obj grantor p) G) in
-      fold_opt (kill_then (revoke_cascade f obj p gof) obj p gof) deps G
+      fold_opt (visit_then (revoke_cascade f obj p gof) obj p gof) deps (G, visited)
   end.
 
 (** (grantee, privilege) pairs in loop order: [for grantee { for privilege {..} }] *)
 Definition pairs (grantees : list string) (expanded : list privilege) : list (string * privilege) :=
   flat_map (fun ge => map (fun p => (ge, p)) expanded) grantees.
 
+(** one iteration of the statement's loops: [remove_grants]; under CASCADE a fresh visited set holding the
+    grantee, then [revoke_cascade] *)
 Definition revoke_one (fuel : nat) (obj : string) (gof : bool) (casc : cascade_opt)
            (G : list grant) (gp : string * privilege) : option (list grant) :=
   let '(ge, p) := gp in
+  let G1 := remove_grants obj ge p gof G in
   match casc with
-  | CCascade => kill_then (revoke_cascade fuel obj p gof) obj p gof G ge
-  | _ => Some (remove_grants obj ge p gof G)
+  | CCascade => match revoke_cascade fuel obj p gof G1 [ge] ge with
+                | Some st => Some (fst st)
+                | None => None
+                end
+  | _ => Some G1
   end.
 
 Definition restrict_blocked (G : list grant) (obj : string) (grantees : list string) (expanded : list privilege) : bool :=
   existsb (fun gp => has_dependent_grants G obj (fst gp) (snd gp)) (pairs grantees expanded).
 
-(** stack budget given to [revoke_cascade]: enough for every terminating run (PrivLaws.cascade_fuel_enough) *)
+(** recursion budget given to [revoke_cascade]: always enough (PrivLaws.revoke_never_crashes) *)
 Definition cascade_fuel (G : list grant) : nat := S (List.length G).
 
 Definition exec_revoke (s : state) (gof : bool) (privs : list privilege) (ot : objtype) (obj : string)
